@@ -19,7 +19,10 @@ re-iteration from the start, not independent cursors): a new iter() abandons the
 import numpy as np
 
 from simkit.core import RunState, Sim
-from simkit.world import World, SimBodyError
+from simkit.world import World, SEAM, SimFault, SimBodyError
+
+
+EXC = {"SimBodyError": SimBodyError, "IndexError": IndexError, "ValueError": ValueError, "KeyError": KeyError, "MemoryError": MemoryError}
 
 
 class DataSim(Sim):
@@ -31,13 +34,13 @@ class DataSim(Sim):
     RUN_TIMEOUT = 20
     PROBES = ["reiteration_after_full_epoch", "reiteration_after_abandon", "len_during_iteration", "getitem_during_iteration", "transform_none",
               "transform_tagging", "transform_raises", "n_smaller_than_batch", "n_not_multiple_of_batch", "split_shuffle_real_rng",
-              "split_shuffle_stub_perm", "split_no_shuffle", "split_with_validation", "one_hot", "exhausted_polled_again", "three_epochs"]
+              "split_shuffle_stub_perm", "split_no_shuffle", "split_with_validation", "one_hot", "exhausted_polled_again", "three_epochs", "next_interrupted_then_new_epoch"]
     RULE = ("one run = 1-2 loaders and a seeded interleaving of iter/next/abandon/restart/full-epoch/len/index events plus dataset splits under real "
             "and stubbed shuffles; distinct = hash of (loader geometry class, order of events); non-trivial = a loader was re-iterated after a "
             "partial or full pass, or a shuffled split ran")
 
     def knobs(self, rng, tier):
-        return {"max_events": rng.randint(5, 40), "n_loaders": rng.randint(1, 2), "np_seed": rng.randrange(2 ** 31)}
+        return {"max_events": rng.randint(5, 40), "n_loaders": rng.randint(1, 2), "np_seed": rng.randrange(2 ** 31), "faulty": rng.random() < 0.3}
 
     def start(self, knobs):
         st = RunState(knobs)
@@ -54,13 +57,21 @@ class DataSim(Sim):
             n = rng.choice([0, 1, 2, 3, 5, 7, 8, 10, 12, 17])
             b = rng.choice([1, 2, 3, 4, 5, 8])
             return {"k": "loader", "lid": len(st.Ld), "n": n, "b": b, "d": rng.randint(1, 3), "tf": rng.choice(["none", "none", "identity", "tag", "raise"]),
-                    "raise_at": rng.randint(0, 3), "kind": rng.choice(["array", "list"])}
+                    "raise_at": rng.randint(0, 3), "kind": rng.choice(["array", "list"]),
+                    "exc": rng.choice(["SimBodyError", "SimBodyError", "IndexError", "ValueError", "KeyError", "MemoryError"])}
+        if getattr(st, "pending", None):
+            return st.pending.pop(0)
         lid = rng.choice(sorted(st.Ld))
         r = rng.random()
         if r < 0.2:
             return {"k": "iter_new", "lid": lid}
         if r < 0.55 and lid in st.its:
-            return {"k": "iter_next", "lid": lid}
+            ev = {"k": "iter_next", "lid": lid}
+            if kn.get("faulty") and rng.random() < 0.15:
+                # a crash point at an arbitrary line inside the loader's own code; the caller abandons the pass and starts a new epoch
+                ev["fault"] = {"kind": rng.choice(["alloc", "interrupt", "exit"]), "seam": "line", "at": rng.randint(1, 25)}
+                st.pending = [{"k": "epoch", "lid": lid, "times": 1}]
+            return ev
         if r < 0.68:
             return {"k": "epoch", "lid": lid, "times": rng.choice([1, 1, 2, 3])}
         if r < 0.74:
@@ -89,7 +100,8 @@ class DataSim(Sim):
         def transform(loader, xb, yb):
             L["calls"].append((np.array(xb, dtype=np.float32).copy(), np.array(yb, dtype=np.float32).copy()))
             if ev["tf"] == "raise" and len(L["calls"]) - 1 == L["raise_at"]:
-                e = SimBodyError("transform raised")
+                # user code failing inside the look-up (a mislabelled sample in a one-hot table look-up raises IndexError, ...)
+                L["raised"] = e = EXC[ev.get("exc", "SimBodyError")]("transform raised")
                 raise e
             if ev["tf"] == "tag":
                 return ("tagged", np.array(xb), np.array(yb))
@@ -133,25 +145,36 @@ class DataSim(Sim):
         L, c = st.Ld[lid], st.its[lid]
         nb = L["n"] // L["b"]
         ncalls = len(L["calls"])
+        L["raised"] = None
         try:
             item = next(c["obj"])
         except StopIteration:
+            if L.get("raised") is not None:
+                st.fail("C18.transform_error_swallowed", f"{where}: the transform raised {type(L['raised']).__name__} while batch {c['pos']} of loader {lid} was "
+                        "fetched; the loader turned it into the end of the iteration - the remaining samples are dropped without any error", loader=lid)
             if c["pos"] < nb:
                 st.fail("C18.batch_count", f"{where}: loader {lid} (n={L['n']}, batch_size={L['b']}) stopped after {c['pos']} batches, expected {nb}", loader=lid)
             if c["done"]:
                 st.probes["exhausted_polled_again"] += 1
             c["done"] = True
             return False
-        except SimBodyError:
-            if L["tf"] == "raise":
+        except (SimBodyError, IndexError, ValueError, KeyError, MemoryError) as e:
+            if isinstance(e, SimFault) and not isinstance(e, SimBodyError):
+                raise                      # injected by the simulator, handled by the event
+            if L["tf"] == "raise" and e is L.get("raised"):
                 st.probes["transform_raises"] += 1
                 st.faults["F3.transform_raise"] += 1
                 c["pos"] += 1           # the batch was consumed by the failed call; nothing is promised about resuming: abandon
                 st.its.pop(lid, None)
                 return False
-            raise
+            if isinstance(e, SimBodyError):
+                raise
+            st.fail("C18.batch", f"{where}: next() on loader {lid} (transform={L['tf']}) raised {type(e).__name__}: {e}", loader=lid)
         except Exception as e:
             st.fail("C18.batch", f"{where}: next() on loader {lid} (transform={L['tf']}) raised {type(e).__name__}: {e}", loader=lid)
+        if L.get("raised") is not None:
+            st.fail("C18.transform_error_swallowed", f"{where}: the transform raised {type(L['raised']).__name__} for batch {c['pos']} of loader {lid} and the loop "
+                    "received a batch all the same", loader=lid)
         if c["pos"] >= nb:
             st.fail("C18.batch_count", f"{where}: loader {lid} (n={L['n']}, batch_size={L['b']}) yielded batch #{c['pos']}, only {nb} full batches exist", loader=lid)
         if L["tf"] != "none" and len(L["calls"]) != ncalls + 1:
@@ -177,7 +200,14 @@ class DataSim(Sim):
         if ev["lid"] not in st.its:
             st.skipped += 1
             return
-        self._next(st, ev["lid"], "explicit next()")
+        try:
+            with SEAM.armed(ev.get("fault")):
+                self._next(st, ev["lid"], "explicit next()")
+        except SimFault:
+            SEAM.disarm()
+            st.faults["F2.next_line_" + ev["fault"]["kind"]] += 1
+            st.probes["next_interrupted_then_new_epoch"] += 1
+            st.its.pop(ev["lid"], None)          # the pass is abandoned; a later iteration starts from the first batch again
 
     def _ev_epoch(self, st, ev):
         lid = ev["lid"]
